@@ -7,9 +7,36 @@ package cause
 
 import (
 	"github.com/zclconf/go-cty/cty"
+	"github.com/zclconf/go-cty/cty/convert"
 
 	"verif/harness/spec"
 )
+
+// UnifiedOf asks the library for the unsafe unification of the given types,
+// the way the conversion code does when a tuple/object is converted to a
+// collection of placeholder element type (classification only: the answer
+// decides which known root cause a failure is attributed to, never whether a
+// case passes). It returns nil when there is none.
+func UnifiedOf(ts []spec.T) (ret *spec.T) {
+	defer func() {
+		if recover() != nil {
+			ret = nil
+		}
+	}()
+	if len(ts) == 0 {
+		return nil
+	}
+	cts := make([]cty.Type, len(ts))
+	for i, t := range ts {
+		cts[i] = t.Cty()
+	}
+	u, _ := convert.UnifyUnsafe(cts)
+	if u == cty.NilType {
+		return nil
+	}
+	r := spec.FromCty(u)
+	return &r
+}
 
 // UnknownSetToList names the root cause recognised by SetToListElemChange.
 const UnknownSetToList = "set of unknown length to list: result typed with the input element type"
@@ -143,6 +170,22 @@ func AnyUnknownLengthSet(vals []cty.Value) bool {
 func SetToListElemChange(vals []cty.Value, inT *spec.T, tgt spec.T) bool {
 	if inT == nil {
 		return false
+	}
+	// a tuple/object converted to a collection of placeholder element type is
+	// converted to the unification of its member types
+	if tgt.IsColl() && tgt.E.K == spec.KDynamic {
+		var members []spec.T
+		switch {
+		case inT.K == spec.KTuple && tgt.K != spec.KMap:
+			members = inT.Elems
+		case inT.K == spec.KObject && tgt.K == spec.KMap:
+			for _, a := range inT.Attrs {
+				members = append(members, a.T)
+			}
+		}
+		if u := UnifiedOf(members); u != nil && u.K != spec.KDynamic {
+			tgt = spec.T{K: tgt.K, E: u}
+		}
 	}
 	if inT.K == spec.KSet && tgt.K == spec.KList && !inT.E.Equal(tgt.E.StripOptional()) && tgt.E.K != spec.KDynamic && AnyUnknownLengthSet(vals) {
 		return true
